@@ -8,6 +8,8 @@ from . import vlib
 
 def replay(path):
     d = json.load(open(path))
+    if "seed" in d:
+        os.environ["VERIF_SEED"] = str(d["seed"])      # concretisations are drawn from (seed, class, index): replay under the seed of the reporting run
     prop = d["property"]
     v = d["violation"]
     inst = v.get("instance", {})
